@@ -45,6 +45,7 @@ def shrink_ops(r, mod_name, run_fn, driver_kind, mask_model, oracle_props, budge
     mod = importlib.import_module(mod_name)
     case = r["case"]
     keep_kinds = {"new", "cluster", "index", "exit", "dump"}
+    want_oracle = any(f[0] in oracle_props for f in r.get("fails", []))
 
     def attempt(ops):
         c2 = dict(case, ops=ops)
@@ -55,7 +56,9 @@ def shrink_ops(r, mod_name, run_fn, driver_kind, mask_model, oracle_props, budge
         if mask_model:
             model = [mask_model(l) for l in model]
         d = first_diff(out["obs"], model)
-        bad = d is not None or any(f[0] in oracle_props for f in out.get("fails", []))
+        orc = any(f[0] in oracle_props for f in out.get("fails", []))
+        # a case that shows the property failing on the real code keeps doing so while it shrinks
+        bad = orc if want_oracle else (d is not None or orc)
         return bad, out, model, d
 
     ops = list(case["ops"])
@@ -126,7 +129,7 @@ def correspondence(rep, *, prop, mod_name, driver_kind, ncases, extra=(), nontri
     diffs = 0
     oracle_fails = 0
     samples = []
-    reported = 0
+    bad_cases = []
     for r, model in zip(results, outs):
         if mask_model:
             model = [mask_model(l) for l in model]
@@ -143,8 +146,12 @@ def correspondence(rep, *, prop, mod_name, driver_kind, ncases, extra=(), nontri
             diffs += 1
         if fails:
             oracle_fails += 1
-        if (d is not None or fails) and reported < max_report:
-            reported += 1
+        if d is not None or fails:
+            bad_cases.append((r, model, d, fails))
+    # cases on which the real code itself fails the property are reported first
+    bad_cases.sort(key=lambda t: 0 if t[3] else 1)
+    for r, model, d, fails in bad_cases[:max_report]:
+        if True:
             rr, dd = r, d
             if isinstance(r.get("case"), dict) and "ops" in r["case"]:
                 try:                            # shrinking is best-effort
